@@ -12,7 +12,7 @@ if go build ./... 2>/tmp/mutant-build.log; then echo "BUILD ok"; else echo "BUIL
 if go test -vet=off -count=1 ./... >/tmp/mutant-suite.log 2>&1; then echo "SUITE passes"; else echo "SUITE FAILS (mutant is caught by the repository's own tests)"; tail -5 /tmp/mutant-suite.log; fi
 cd /verif
 for id in "$@"; do
-  out=$(VERIF_DIR=${VERIF_DIR:-/verif} ./check "$id" "$tier" 2>&1); rc=$?
+  out=$(VERIF_OUT=${VERIF_OUT:-/tmp/seedout} ./check "$id" "$tier" 2>&1); rc=$?
   echo "CHECK $id rc=$rc $(echo "$out" | grep -c '^VIOLATION') violation line(s)"
   echo "$out" | grep -A1 '^VIOLATION' | head -4 | cut -c1-260
   echo "$out" | grep -E '^(INTERNAL|NOTE|BUILD-FAILED)' | head -3 | cut -c1-260
